@@ -12,6 +12,10 @@ func TestC19_History(t *testing.T) {
 	checkRapid(t, "C19", "TestC19_History", ruleC19, drawC19)
 }
 
+func TestC19_LongRun(t *testing.T) {
+	checkRapid(t, "C19", "TestC19_LongRun", ruleC19Long, drawC19Long)
+}
+
 // TestC19_Baseline prints the outcome of one descriptor as the first library call of this
 // (fresh) process.
 func TestC19_Baseline(t *testing.T) {
